@@ -87,7 +87,19 @@ def _make_items(vals, ids, fmt):
     if fmt == "tuple":
         return tuple(vals), None, lambda x: _int(x)
     if fmt == "array":
-        return np.array(vals, dtype=np.int64), None, lambda x: _int(x)
+        # the narrowest of a few fixed-width integer types that holds every value, chosen deterministically from the values
+        # (repair D12: arithmetic on the elements of an int16 / int32 / uint8 array used to overflow silently)
+        dt = np.int64
+        if len(vals) and min(vals) >= 0:
+            pick = (sum(vals) + len(vals)) % 4
+            mx = max(vals)
+            if pick == 1 and mx < 2 ** 31:
+                dt = np.int32
+            elif pick == 2 and mx < 2 ** 15:
+                dt = np.int16
+            elif pick == 3 and mx < 2 ** 8:
+                dt = np.uint8
+        return np.array(vals, dtype=dt), None, lambda x: _int(x)
     if fmt == "dict_str":
         d = {name_str(i): v for i, v in zip(ids, vals)}
         return d, None, lambda x: int(x[1:])
